@@ -82,6 +82,8 @@ class Batch:
                      'options': list(c['base_options'])}
                 if mode == 'list':
                     w['options'].append('--list-tests')
+                    if i % 3 == 1:
+                        w['options'].append('-j%d' % c['j'])        # listing is listing, however many processes a run would use
                 elif mode == 'par':
                     w['options'].append('-j%d' % c['j'])
                 elif mode == 'res':
@@ -123,6 +125,9 @@ class Batch:
             m = re.match(r'Listing (\S+) tests:', ln)
             if m:
                 cur = m.group(1)
+                if cur == '.EmptyLayer':
+                    cur = None          # the placeholder layer of -j runs: not a layer of the world, lists nothing
+                    continue
                 listed[cur] = []
                 lorder.append(cur)
                 continue
